@@ -11,11 +11,19 @@ C19 — line-protocol driver of the model (core only). State = the world (users,
   route cfg=<lk><flux><pprof><ext> <METHOD> <path> db=<s> dbx=<database exists> u=<s> p=<s> h=<hdr> q=<stmts>
                                                                  → 401 fx=0 | 403 fx=0 | az fx=0 | 404 fx=0 | 405 fx=0 | pass | broken
   bb … (same fields as route; a live server: no side-effect flag)  → 401 | 403 | az | 404 | 405 | pass | broken
+  preq cfg=<…> <METHOD> <path> ct=<n|u|m|o> url=<pairs> body=<pairs> h=<hdr> dbs=<hex(,hex)*|-> q0=<stmts> qs=<alts>
+       a request with its parameters placed in the URL and / or the body (ct = content type: none, urlencoded,
+       multipart, other). The database that is authorized and the one that is acted on are resolved from the
+       request the way the handler's regenerated flow says; serveQuery takes its statements from `qs` by the text
+       FormValue("q") resolves to, every other handler from q0.
+                                                                 → 401 fx=0 | 403 fx=0 | az fx=0 | 404 fx=0 | 405 fx=0 | pass | pass x=<db acted on> | broken
+pairs = - | <k>:<v>(,<k>:<v>)*      alts = - | <hex of query text>=<stmts>(/<hex>=<stmts>)*
 strings are hex (UTF-8), "-" = empty.  priv = 0..3.
 hdr   = - | basic:<u>:<p> | bearer:<parses><expOk>:<m|x|n<name>> | token:<s> | other
 stmts = - | stmt(;stmt)*     stmt = <Kind>,<target>,<priv(|priv)*>     priv = <admin><rwuser><0..3>.<dbname>
 -/
 import OG.C19.Model
+import OG.C19.Flow
 
 namespace OG.C19
 
@@ -106,6 +114,47 @@ def parsePrivEntry (s : String) : Option (String × Priv) :=
   | [db, p] => do some (← unhex db, ← parsePriv p)
   | _ => none
 
+def parsePair (s : String) : Option (String × String) :=
+  match s.splitOn ":" with
+  | [k, v] => do some (← unhex k, ← unhex v)
+  | _ => none
+
+def parsePairs (s : String) : Option (List (String × String)) :=
+  if s = "-" then some [] else (s.splitOn ",").mapM parsePair
+
+def parseAlt (s : String) : Option (String × List Stmt) :=
+  match s.splitOn "=" with
+  | [k, v] => do some (← unhex k, ← parseStmts v)
+  | _ => none
+
+def parseAlts (s : String) : Option (List (String × List Stmt)) :=
+  if s = "-" then some [] else (s.splitOn "/").mapM parseAlt
+
+def parseCType (s : String) : Option CType :=
+  if s = "n" then some .none else if s = "u" then some .urlencoded else if s = "m" then some .multipart
+  else if s = "o" then some .other else none
+
+def parseDbs (s : String) : Option (List String) :=
+  if s = "-" then some [] else (s.splitOn ",").mapM unhex
+
+def lookupAlt (k : String) : List (String × List Stmt) → Option (List Stmt)
+  | [] => none
+  | (k', v) :: rest => if k' = k then some v else lookupAlt k rest
+
+def showOutcome (o : ReqOutcome) : String :=
+  match o.decision, o.actedOn with
+  | .pass, some x => "pass x=" ++ hexOf x
+  | d, _ => showDecision' d
+where showDecision' : Decision → String
+  | .d401 => "401 fx=0" | .d403 => "403 fx=0" | .dAz => "az fx=0" | .d404 => "404 fx=0" | .d405 => "405 fx=0"
+  | .pass => "pass" | .broken => "broken"
+
+/-- the handler a request is dispatched to ("" when none). -/
+def handlerOf (c : Cfg) (method : String) (path : List Char) : String :=
+  match dispatch c method path with
+  | .route r => r.handler
+  | _ => ""
+
 def showDecision : Decision → String
   | .d401 => "401 fx=0" | .d403 => "403 fx=0" | .dAz => "az fx=0" | .d404 => "404 fx=0" | .d405 => "405 fx=0"
   | .pass => "pass" | .broken => "broken"
@@ -177,6 +226,20 @@ def step (w : World) (line : String) : World × String :=
           parseReq u p h, (kv "q" q).bind parseStmts with
     | some c, some path, some d, some dx, some r, some q => (w, showDecisionBare (decide w c method path.toList r d dx q))
     | _, _, _, _, _, _ => (w, "bad-op")
+  | ["preq", cfg, method, path, ct, url, body, h, dbs, q0, qs] =>
+    match (kv "cfg" cfg).bind parseCfg, unhex path, (kv "ct" ct).bind parseCType, (kv "url" url).bind parsePairs,
+          (kv "body" body).bind parsePairs, (kv "h" h).bind parseHdr, (kv "dbs" dbs).bind parseDbs,
+          (kv "q0" q0).bind parseStmts, (kv "qs" qs).bind parseAlts with
+    | some c, some path, some ct, some url, some body, some hdr, some dbs, some q0, some qs =>
+      let req : HttpReq := ⟨method, ct, url, body, [], hdr⟩
+      if handlerOf c method path.toList = "serveQuery" then
+        let qtext := req.formValue "q"
+        if qtext = "" then (w, showOutcome (decideReq w c stdInterp req path.toList dbs none))
+        else match lookupAlt qtext qs with
+          | some q => (w, showOutcome (decideReq w c stdInterp req path.toList dbs (some q)))
+          | none => (w, "bad-op")
+      else (w, showOutcome (decideReq w c stdInterp req path.toList dbs (some q0)))
+    | _, _, _, _, _, _, _, _, _ => (w, "bad-op")
   | ["route", cfg, method, path, db, dbx, u, p, h, q] =>
     match (kv "cfg" cfg).bind parseCfg, unhex path, (kv "db" db).bind unhex, (kv "dbx" dbx).bind (fun x => x.toList.head?.bind bit),
           parseReq u p h, (kv "q" q).bind parseStmts with
